@@ -366,7 +366,7 @@ class TDMProgram(Program):
     @property
     def measured_modes(self):
         """The number of measured modes in the program returned as a list."""
-        return list(self._measured_modes)
+        return sorted(self._measured_modes)
 
     @property
     def timebins(self):
@@ -429,7 +429,14 @@ class TDMProgram(Program):
 
         if self.space_unrolled_circuit is not None:
             if self._num_added_subsystems > 0:
-                self._delete_subsystems(self.register[-self._num_added_subsystems :])
+                added = self.register[-self._num_added_subsystems :]
+                self._delete_subsystems(added)
+                # the added subsystems only exist in the space-unrolled form; also remove them
+                # from the index table so that the original register is restored exactly (a
+                # later space-unrolling would otherwise be given indices the backend never sees)
+                for r in added:
+                    del self.reg_refs[r.ind]
+                    self.unused_indices.discard(r.ind)
                 self.init_num_subsystems -= self._num_added_subsystems
                 self._num_added_subsystems = 0
 
